@@ -541,8 +541,11 @@ def _ctor_case(case):
     mod, C, attr = _cls("ddp")
     func = "DDPDistributor.__init__"
     out = []
-    shapes = [(4, 2), (2, 2), (6,), (3, 2), (5, 3)]
-    for world in range(1, 9):
+    # two block-size families: (a) all blocks far below the 64-byte alignment; (b) block sizes whose aligned size in the communication dtype
+    # (bf16, 2 bytes) and in the parameter dtype (f32, 4 bytes) differ — an assignment computed from anything but the communication-buffer
+    # sizes then disagrees with the buffer layout
+    for world, fam in [(w, f) for w in range(1, 9) for f in ("a", "b")]:
+        shapes, maxdim = ([(4, 2), (2, 2), (6,), (3, 2), (5, 3)], 2) if fam == "a" else ([(4,), (17,), (4,), (4,), (33,), (3, 11), (20,)], 1024)
         for gsize in [g for g in range(1, world + 1) if world % g == 0]:
             per_rank = {}
             for rank in range(world):
@@ -569,7 +572,7 @@ def _ctor_case(case):
                 cfg = st.DDPShampooConfig(communication_dtype=st.CommunicationDType.BF16, num_trainers_per_group=(gsize if gsize != world else -1))
                 try:
                     with rebind([(mod, "dist", Dist)]):
-                        D = C({st.PARAMS: params, st.MAX_PRECONDITIONER_DIM: 2, st.USE_MERGE_DIMS: False}, cfg)
+                        D = C({st.PARAMS: params, st.MAX_PRECONDITIONER_DIM: maxdim, st.USE_MERGE_DIMS: False}, cfg)
                 except BaseException as e:  # noqa
                     per_rank[rank] = f"{type(e).__name__}: {e}"
                     continue
@@ -599,7 +602,7 @@ def _ctor_case(case):
                         ok, txt = False, f"rank {rank}: local_dist_buffer is not segment {gr}"
                 if ok and (set(own) - set(range(gsize)) or len(own) != n):
                     ok, txt = False, "owner outside the group"
-            out.append(result(f"{func}/selection-and-state-exactly-for-owned-blocks;all-ranks-agree[{case}/world{world}-group{gsize}]", func,
+            out.append(result(f"{func}/selection-and-state-exactly-for-owned-blocks;all-ranks-agree[{case}/world{world}-group{gsize}-sizes-{fam}]", func,
                               "discharged" if ok else "violated", backend="concrete-execution of the real constructor (torch.distributed stubbed), all ranks", case=case,
                               text=txt or f"world {world}, group size {gsize}: every rank agrees on the owners; rank r selects / allocates state for exactly the blocks owned by r mod {gsize}",
                               replay=dict(kind="ctor")))
